@@ -98,8 +98,36 @@ def main(tier, replay):
                         scs.append({"id": k, "shards": 2, "shard": 0, "syncPeriodMs": 60, "realtime": True,
                                     "steps": [{"k": "save", "n": "c1", "up": "up0", "v": 1}, {"k": "save", "n": "c2", "up": "up2", "v": 2}, {"k": "holdsync"}, opstep] + tail +
                                              [{"k": "sleep", "ms": 150}, {"k": "obs"}, {"k": "load", "shard": 0}, {"k": "load", "shard": 1}]})
+            # directed: the background sync / a flush runs while a delete sits between "the API has applied it" and "the store has dropped its
+            # own copy" (K8sStore.tla: Delete is API delete + local delete under ONE lock; a sync in between would re-create the object)
+            for n, up in (("c1", "up0"), ("c2", "up2")):
+                for opstep in ({"k": "delete", "n": n, "up": up}, {"k": "delup", "up": up}):
+                    for tail in ([{"k": "release"}], [{"k": "release"}, {"k": "stop"}]):
+                        k += 1
+                        scs.append({"id": k, "shards": 2, "shard": 0, "syncPeriodMs": 40, "realtime": True,
+                                    "steps": [{"k": "save", "n": "c1", "up": "up0", "v": 1}, {"k": "save", "n": "c2", "up": "up2", "v": 2}, {"k": "save", "n": "c3", "up": "up0", "v": 3},
+                                              {"k": "sleep", "ms": 150}, {"k": "holdafterdelete"}, opstep, {"k": "sleep", "ms": 200}] + tail +
+                                             [{"k": "sleep", "ms": 150}, {"k": "obs"}, {"k": "load", "shard": 0}, {"k": "load", "shard": 1}]})
+            # races under the cooperative scheduler (instrumented store): an operation against a flush / a stop / another operation, single-preemption
+            # sweep over the first synchronisation operations of either side, in both orders.  The windows between two critical sections of ONE
+            # operation (e.g. "API delete done, own copy not yet dropped") are not at API-call boundaries: only scheduling at lock operations reaches them
+            # (pairs whose acknowledgements carry obligations that depend on which of the two took effect first - a save against a stop, a delete
+            # against a save of the same condition - are left out: the order of effect is not observable from outside)
+            pairs = [({"k": "delete", "n": "c1", "up": "up0"}, {"k": "flush"}), ({"k": "delup", "up": "up0"}, {"k": "flush"}), ({"k": "delete", "n": "c1", "up": "up0"}, {"k": "stop"}),
+                     ({"k": "delup", "up": "up0"}, {"k": "stop"}), ({"k": "save", "n": "c1", "up": "up0", "v": 9}, {"k": "flush"}),
+                     ({"k": "delete", "n": "c1", "up": "up0"}, {"k": "save", "n": "c4", "up": "up0", "v": 4}), ({"k": "delup", "up": "up2"}, {"k": "save", "n": "c3", "up": "up0", "v": 8})]
+            sweep = range(0, 36, 3) if tier == "quick" else range(0, 60)
+            for pi, (a, b) in enumerate(pairs):
+                for kk in sweep:
+                    for first in (1, 2):
+                        k += 1
+                        other = 3 - first
+                        scs.append({"id": k, "shards": 2, "shard": 0, "syncPeriodMs": 3600000, "realtime": True,
+                                    "steps": [{"k": "save", "n": "c1", "up": "up0", "v": 1}, {"k": "save", "n": "c2", "up": "up2", "v": 2}, {"k": "save", "n": "c3", "up": "up0", "v": 3}, {"k": "flush"},
+                                              {"k": "race", "a": a, "b": b, "schedule": [first] * kk + [other] * 300}, {"k": "obs"}] +
+                                             ([] if b["k"] == "stop" else [{"k": "stop"}]) + [{"k": "load", "shard": 0}, {"k": "load", "shard": 1}]})
         binp = os.path.join(wd, "k8sstore.test")
-        vlib.go_test_build("./k8sstore", binp)
+        vlib.go_test_build("./k8sstore", binp, instrument=["pkg/ratelimiter/store/k8s", "pkg/ratelimiter/store/local"])
         traces, crashed = vlib.run_test_driver(binp, scs, wd, timeout=1500)
         sc_by_id = {str(s["id"]): s for s in scs}
         for sid, tail in crashed.items():
